@@ -6,7 +6,7 @@
    plan   := q.<Op>[plans] | dml.<Kind>.<Loc>[plan] | ddl.<Kind>[plans] | copy.<Loc>[plan]
            | st.<Kind>[plans] | ex[plan] | an[plan] | desc
    plans  := empty, or plan {, plan}
-   iface  := sql | sqlidx | stream | flightinfo | flightprep | flightprepgrpc
+   iface  := sql | sqlidx | stream | flightinfo | flightprep | flightprepgrpc | execstream
    Output line:  accepted=<0|1> effects=<classes>      (gate)
                  effects=<classes>                     (raw, raw3)
    classes: sorted, unique, comma separated: store:<loc> | catalog | session | function *)
@@ -52,7 +52,7 @@ let loc_name = function
 let iface_of = function
   | "sql" -> ISqlHttp | "sqlidx" -> ISqlIndexed | "stream" -> IStreaming
   | "flightinfo" -> IFlightInfo | "flightprep" -> IFlightPrepare
-  | "flightprepgrpc" -> IFlightPrepareGrpc
+  | "flightprepgrpc" -> IFlightPrepareGrpc | "execstream" -> IExecuteStream
   | s -> failwith ("bad iface " ^ s)
 
 (* recursive-descent parser over the string *)
